@@ -142,6 +142,17 @@ DoListQuery(o, d) == /\ sl.type # "none" /\ d.types \cap {sl.type} # {} /\ UNCHA
                      /\ last' = Rec("listquery", sl.type, o, d.id,
                                     IF \E i \in DOMAIN sl.entries : sl.entries[i].owner = o /\ sl.entries[i].data = d.id THEN "true" ELSE "false")
 
+(* list-valued membership query: are all entries of the scratch list in the database?  The library looks at the first list with the  *)
+(* scratch list's type and entry size only, so the answer is fixed in two cases: some entry is nowhere in the collection (false); *)
+(* exactly one list of that type and size exists and holds them all (true)                                                        *)
+SameShape(l, s) == l.type = s.type /\ l.size = s.size
+AllIn(l, s) == \A k \in DOMAIN s.entries : \E m \in DOMAIN l.entries : l.entries[m].owner = s.entries[k].owner /\ l.entries[m].data = s.entries[k].data
+ListQueryDbMust == IF \E k \in DOMAIN sl.entries : ~InFlat(db, sl.type, sl.entries[k].owner, sl.entries[k].data) THEN "false"
+                   ELSE IF \E i \in DOMAIN db : SameShape(db[i], sl) /\ AllIn(db[i], sl) /\ \A j \in DOMAIN db : SameShape(db[j], sl) => j = i THEN "true"
+                   ELSE "may"
+DoListQueryDb == /\ sl.type # "none" /\ Len(sl.entries) > 0 /\ UNCHANGED <<db, sl>>
+                 /\ last' = Rec("listquerydb", sl.type, "-", "-", ListQueryDbMust)
+
 \* @type: Seq($list) => Bool;
 AllDecodable(d) == \A i \in DOMAIN d : d[i].type \in Decodable
 DoRecode == /\ UNCHANGED <<db, sl>>
@@ -151,7 +162,7 @@ Init == db = <<>> /\ sl = NoList /\ last = Rec("init", "-", "-", "-", "ok")
 Next == \/ \E o \in Owners, d \in Data : \E t \in d.types : DoAppend(t, o, d) \/ DoRemove(t, o, d) \/ DoQuery(t, o, d)
         \/ \E t \in ValidSchemes : DoListNew(t)
         \/ \E o \in Owners, d \in Data : DoListAppend(o, d) \/ DoListRemove(o, d) \/ DoListQuery(o, d)
-        \/ DoAppendList \/ DoRecode
+        \/ DoAppendList \/ DoRecode \/ DoListQueryDb
         \/ \E k \in 1..9 : DoRemoveList(k)
 Spec == Init /\ [][Next]_vars
 
